@@ -29,12 +29,15 @@ Record situation := mkSit {
   s_timeout_set : bool;     (* a timeout was requested *)
   s_timed_out : bool;       (* ... and it expired *)
   s_status : Z;             (* the command's true exit status *)
-  s_warn : bool }.
+  s_warn : bool;
+  s_sudo : bool;            (* run through Context.sudo *)
+  s_bad_password : bool }.  (* the (first) watcher error is sudo's rejected-password responder *)
 
 (** The failure raised, by priority; [None] = returns normally. *)
 Definition expected_raise (s : situation) : option raise_kind :=
   if negb (Nat.eqb (s_thread_excs s) 0) then Some RThreadException
-  else if negb (Nat.eqb (s_watcher_errs s) 0) then Some RFailure
+  else if negb (Nat.eqb (s_watcher_errs s) 0)
+       then Some (if s_sudo s && s_bad_password s then RAuthFailure else RFailure)
   else if s_timeout_set s && s_timed_out s then Some RCommandTimedOut
   else if negb (s_status s =? 0)%Z && negb (s_warn s) then Some RUnexpectedExit
   else None.
@@ -42,7 +45,8 @@ Definition expected_raise (s : situation) : option raise_kind :=
 Definition kind_eqb (a b : raise_kind) : bool :=
   match a, b with
   | RThreadException, RThreadException | RFailure, RFailure
-  | RCommandTimedOut, RCommandTimedOut | RUnexpectedExit, RUnexpectedExit => true
+  | RCommandTimedOut, RCommandTimedOut | RUnexpectedExit, RUnexpectedExit
+  | RAuthFailure, RAuthFailure => true
   | _, _ => false
   end.
 
@@ -50,9 +54,10 @@ Definition spec_finish (s : situation) (o : outcome) : bool :=
   match expected_raise s, o with
   | None, Return r => view_ok r && optz_eqb (rv_exited r) (Some (s_status s))
   | Some RThreadException, Raise RThreadException _ => true
-  | Some RFailure, Raise RFailure (Some r) =>
+  | Some RFailure, Raise RFailure (Some r) | Some RAuthFailure, Raise RAuthFailure (Some r) =>
       (* a watcher error aborts execution: the status may be unknown (None) *)
       view_ok r && (optz_eqb (rv_exited r) None || optz_eqb (rv_exited r) (Some (s_status s)))
+  | Some RFailure, _ | Some RAuthFailure, _ => false
   | Some k, Raise k' (Some r) =>
       kind_eqb k k' && view_ok r && optz_eqb (rv_exited r) (Some (s_status s))
   | _, _ => false
@@ -66,7 +71,7 @@ Definition spec_program (e : prog_event) (o : prog_out) : bool :=
   | PExit (Some c) _, PSysExit c' => (c =? c')%Z
   | PExit None m, PSysExit c' => (c' =? (if m then 1 else 0))%Z
   | PParseError, PSysExit c => (c =? 1)%Z
-  | PKeyboardInterrupt, _ => true
-  | POtherException, _ => true
+  | PKeyboardInterrupt, PSysExit c => (c =? 1)%Z     (* as Python itself outside a REPL *)
+  | POtherException, PPropagates => true              (* not the program's business *)
   | _, _ => false
   end.
